@@ -353,11 +353,18 @@ def check_stored(res, span, kind):
         from inscripta.biocantor.gene.transcript import TranscriptInterval
         from inscripta.biocantor.gene.feature import FeatureInterval
 
-        bl3 = [(e - 1, e), (s, s + 1), (s + 2, s + 3)]
+        s0 = max(0, s - (1 << 17))  # (the first block one whole 128 kb bin below the others: a start taken from another block changes the bin)
+        bl3 = [(e - 1, e), (s0, s0 + 1), (s + 2, s + 3)]
         for nm_, cls_ in (("transcript-rotated", TranscriptInterval), ("feature-rotated", FeatureInterval)):
             r3 = lib.outcome(lambda: cls_([b[0] for b in bl3], [b[1] for b in bl3], lib.STRAND["+"], parent_or_seq_chunk_parent=par))
             if r3[0] == "ok":
-                objs[nm_] = r3[1]
+                res.trans()
+                b3_ = getattr(r3[1], "bin", None)
+                e3_ = kent(s0, e)
+                if b3_ not in (e3_, kent(s0, e + 1) if e + 1 <= MAXC else 1):
+                    res.deviation("bin", dict(cls=nm_, **case), b3_, e3_, sig=f"stored-bin-{nm_}")
+            else:
+                res.deviation("bin", dict(cls=nm_, **case), r3[1], exp, sig=f"stored-bin-{nm_}-raises")
     f = lib.outcome(lib.mk_feat, ((s, e),), "-", par)
     if f[0] == "ok":
         objs["feature"] = f[1]
